@@ -784,6 +784,11 @@ def sem_names(o, depth=0):
 
 
 def op_drop(op, oid, ctx):
+    # the object may be under construction in another thread of the program (concurrent first use, possibly slowed by the
+    # injector): dropping means releasing the finished object
+    _t0 = time.monotonic()
+    while op["obj"] not in OBJS and time.monotonic() - _t0 < 15:
+        time.sleep(0.01)
     o = OBJS.pop(op["obj"], None)
     if op.get("pre_unlink"):
         # the names are removed behind the object's back first (user code calling sem_unlink, a /dev/shm reaper): the
